@@ -1276,7 +1276,19 @@ impl Evaluator {
             if !is_return {
                 // inside a WITH the selected *set* must be determined: no tie may straddle a cut
                 let key = |r: &Vec<LV>| -> Vec<LV> { order_cols.iter().map(|(i, _)| r[*i].clone()).collect() };
-                let cut_ambiguous = |pos: usize| pos > 0 && pos < out.len() && (order_cols.is_empty() || key(&out[pos - 1]) == key(&out[pos])) && out[pos - 1] != out[pos];
+                // a cut is ambiguous when it falls strictly inside a group of rows with equal sort
+                // keys (all rows, without ORDER BY) that are not all identical
+                let cut_ambiguous = |pos: usize| {
+                    if pos == 0 || pos >= out.len() {
+                        return false;
+                    }
+                    if !order_cols.is_empty() && key(&out[pos - 1]) != key(&out[pos]) {
+                        return false;
+                    }
+                    let k = key(&out[pos]);
+                    let group: Vec<&Vec<LV>> = out.iter().filter(|r| order_cols.is_empty() || key(r) == k).collect();
+                    group.iter().any(|r| **r != *group[0])
+                };
                 if cut_ambiguous(s) || cut_ambiguous(e) {
                     return unj("WITH … SKIP/LIMIT cuts through a tie");
                 }
